@@ -388,6 +388,9 @@ pub fn directed() -> Vec<Doc> {
     many.push(EntrySpec { phantom: Some(((1u64 << 28) - 1) * 128), ..ent("exd/phantom.exd", 7, true, true, 60) });
     // a pangram: every letter is hashed, and queried in the other case
     many.push(ent("exd/the_quick_brown_fox/jumps_over_a_lazy_dog.exh", 0, true, true, 61));
+    // two paths of different categories whose whole-path hashes are equal (0xAC969BBC): each is
+    // found in the index files of its own category only, whatever was looked up before
+    many.push(ent("exd/quest/s2d2tyd.exd", 2, true, true, 62));
     let install = InstallSpec {
         platform: 2,
         repos: vec![
@@ -407,6 +410,7 @@ pub fn directed() -> Vec<Doc> {
                         ],
                     },
                     PackSpec { cat: 0x0c, chunk: 0, kind: IndexKind::Index2, entries: vec![ent("music/ffxiv/BGM_System_Title.scd", 1, false, true, 4)] },
+                    PackSpec { cat: 0x01, chunk: 0, kind: IndexKind::Both, entries: vec![ent("bgcommon/hou/indoor/filler.mdl", 0, true, true, 63), ent("bgcommon/hou/indoor/mdye_a6.mdl", 1, true, true, 64)] },
                 ],
             },
             RepoSpec {
@@ -447,6 +451,11 @@ pub fn directed() -> Vec<Doc> {
         q(17, QKind::Extract, "exd/The_Quick_Brown_Fox/Jumps_Over_A_Lazy_Dog.exh"),
         q(18, QKind::Extract, "bg/ex1/01_roc_r2/level/b.lgb"),
         q(19, QKind::Extract, "bg/ex1/01_roc_r2/level/b.lgb"),
+        q(100, QKind::FindOffset, "exd/quest/s2d2tyd.exd"),
+        q(101, QKind::FindOffset, "bgcommon/hou/indoor/mdye_a6.mdl"),
+        q(102, QKind::Extract, "bgcommon/hou/indoor/mdye_a6.mdl"),
+        q(103, QKind::Extract, "exd/quest/s2d2tyd.exd"),
+        q(104, QKind::Exists, "bgcommon/quest/s2d2tyd.exd"),
     ];
     let noisy = Benign { short_read: 100, eintr_read: 50, short_write: 0, eintr_write: 0, one_byte_reads: false, one_byte_writes: false, permute_dirs: true };
     let mut out = vec![];
